@@ -179,6 +179,13 @@ impl SemanticState {
                 format!("failed to find `align` attribute for extern type `{extern_path}` in module `{path}`")
             })?;
 
+            let alignment: usize = alignment;
+            if !alignment.is_power_of_two() {
+                anyhow::bail!(
+                    "`align` attribute {alignment} of extern type `{extern_path}` in module `{path}` is not a power of two"
+                );
+            }
+
             let extern_path = path.join(extern_path.as_str().into());
 
             self.add_item(ItemDefinition {
